@@ -3450,6 +3450,10 @@ impl Context {
             merge_block: 0,
         });
 
+        // The cells of the arms are laid out one after the other; each arm restores the state
+        // position it started from.
+        let mut arm_offset = self.get_ctxdata().next_state_offset.take().unwrap_or(0);
+
         // Generate blocks for each constructor pattern
         let (case_blocks, case_results, case_states): (Vec<_>, Vec<_>, Vec<_>) = tag_arms
             .iter()
@@ -3457,27 +3461,25 @@ impl Context {
                 self.add_new_basicblock();
                 let block_idx = self.get_ctxdata().current_bb as u64;
 
-                // Reset state offset at the start of each arm
-                // This ensures each arm starts with a clean state context
-                self.get_ctxdata().next_state_offset = None;
-                self.get_ctxdata().push_sum = 0;
+                let (result_val, _, arm_states) = self.eval_alternative(arm_offset, |ctx| {
+                    // Extract value from the tagged union if there's a binding pattern and payload type
+                    if let MatchPattern::Constructor(_, Some(inner_pattern)) = &arm.pattern
+                        && let Some(vt) = *variant_ty
+                    {
+                        let bound_val = ctx
+                            .push_inst(Instruction::TaggedUnionGetValue(scrut_val.clone(), vt));
+                        // Clone refcounted values extracted from the tagged union so
+                        // they have their own reference count, preventing
+                        // double-release when both the scrutinee and the extracted
+                        // binding go out of scope.
+                        ctx.insert_clone_recursively(bound_val.clone(), vt);
+                        // Bind the pattern to the extracted value
+                        ctx.bind_pattern(inner_pattern, bound_val, vt);
+                    }
 
-                // Extract value from the tagged union if there's a binding pattern and payload type
-                if let MatchPattern::Constructor(_, Some(inner_pattern)) = &arm.pattern
-                    && let Some(vt) = *variant_ty
-                {
-                    let bound_val =
-                        self.push_inst(Instruction::TaggedUnionGetValue(scrut_val.clone(), vt));
-                    // Clone refcounted values extracted from the tagged union so
-                    // they have their own reference count, preventing
-                    // double-release when both the scrutinee and the extracted
-                    // binding go out of scope.
-                    self.insert_clone_recursively(bound_val.clone(), vt);
-                    // Bind the pattern to the extracted value
-                    self.bind_pattern(inner_pattern, bound_val, vt);
-                }
-
-                let (result_val, _, arm_states) = self.eval_expr(arm.body);
+                    ctx.eval_expr(arm.body)
+                });
+                arm_offset += Self::states_size(&arm_states);
                 ((*tag, block_idx), result_val, arm_states)
             })
             .fold(
@@ -3499,11 +3501,9 @@ impl Context {
             self.add_new_basicblock();
             let block_idx = self.get_ctxdata().current_bb as u64;
 
-            // Reset state offset for default arm
-            self.get_ctxdata().next_state_offset = None;
-            self.get_ctxdata().push_sum = 0;
-
-            let (result_val, _, arm_states) = self.eval_expr(arm.body);
+            let (result_val, _, arm_states) =
+                self.eval_alternative(arm_offset, |ctx| ctx.eval_expr(arm.body));
+            arm_offset += Self::states_size(&arm_states);
             all_arm_states.push(arm_states);
             case_results.push(result_val);
             Some(block_idx)
@@ -3511,48 +3511,7 @@ impl Context {
             // Exhaustive match - no default block needed
             None
         };
-
-        // Calculate maximum state size across all arms
-        let arm_state_sizes: Vec<u64> = all_arm_states
-            .iter()
-            .map(|states| states.iter().map(|s| s.total_size()).sum::<u64>())
-            .collect();
-        let max_state_size = arm_state_sizes.iter().copied().max().unwrap_or(0);
-
-        // Insert PushStateOffset for arms with smaller state sizes
-        // This ensures all arms have the same state offset when merging
-        for (i, ((_tag, block_idx), state_size)) in
-            case_blocks.iter().zip(arm_state_sizes.iter()).enumerate()
-        {
-            if *state_size < max_state_size {
-                let offset = max_state_size - state_size;
-                let block = self
-                    .get_current_fn()
-                    .body
-                    .get_mut(*block_idx as usize)
-                    .unwrap();
-                // Insert PushStateOffset at the end of the block (before result)
-                block
-                    .0
-                    .push((Arc::new(Value::None), Instruction::PushStateOffset(offset)));
-            }
-        }
-
-        // Handle default block state adjustment if it exists
-        if let Some(default_idx) = default_block_idx {
-            let default_state_size = arm_state_sizes.last().copied().unwrap_or(0);
-            if default_state_size < max_state_size {
-                let offset = max_state_size - default_state_size;
-                let block = self
-                    .get_current_fn()
-                    .body
-                    .get_mut(default_idx as usize)
-                    .unwrap();
-                block
-                    .0
-                    .push((Arc::new(Value::None), Instruction::PushStateOffset(offset)));
-            }
-        }
+        self.get_ctxdata().next_state_offset = (arm_offset > 0).then_some(arm_offset);
 
         // Generate merge block with PhiSwitch
         self.add_new_basicblock();
@@ -3583,9 +3542,7 @@ impl Context {
             _ => panic!("expected Switch instruction"),
         }
 
-        // Use the largest arm's state as the result state
-        // This represents the maximum state size across all branches
-        // But we need to collect all states from all arms for the function's state signature
+        // The state signature of the match is the concatenation of the states of all arms
         for arm_states in all_arm_states {
             states.extend(arm_states);
         }
